@@ -475,8 +475,7 @@ theorem destroy_inv (s : State) (e : Nat) (h : Inv s) : Inv (destroy s e).1 := b
   · exact h1.cbsOk
 
 theorem initEv_inv (s : State) (e : Nat) (sigs : List Nat) (o : Bool) (h : Inv s)
-    (hv : valid s (.init e sigs o) = true) : Inv (initEv repaired s e sigs o).1 := by
-  simp only [valid, decide_eq_true_eq] at hv
+    (hv : sigs.Nodup) : Inv (initEv repaired s e sigs o).1 := by
   unfold initEv
   by_cases ha : (s.evs e).alive = true
   case neg => simp only [ha, Bool.not_false, ↓reduceIte]; exact h
@@ -606,11 +605,17 @@ theorem raise_inv (s : State) (g : Nat) (h : Inv s) : Inv (raise s g).1 := by
 
 /-! ### callbacks (scripts) and a loop pass -/
 
+theorem nodup_dedup (l : List Nat) : (dedup l).Nodup := by
+  induction l with
+  | nil => exact List.nodup_nil
+  | cons x xs ih => exact nodup_ins ih
+
 theorem act_inv (s : State) (l : Nat) (a : Act) (h : Inv s) : Inv (act repaired s l a) := by
   cases a with
   | enable j => simp only [act]; split <;> first | exact enable_inv s j h | exact h
   | disable j => simp only [act]; split <;> first | exact disable_inv s j h | exact h
   | destroy j => simp only [act]; split <;> first | exact destroy_inv s j h | exact h
+  | init j sg o => simp only [act]; split <;> first | exact initEv_inv s j _ o h (nodup_dedup sg) | exact h
 
 theorem runScript_inv (s : State) (l : Nat) (as : List Act) (h : Inv s) : Inv (runScript repaired s l as) := by
   induction as generalizing s with
@@ -780,7 +785,7 @@ theorem pass_inv (s : State) (l : Nat) (ord : List Nat) (h : Inv s) : Inv (pass 
 theorem step_inv (s : State) (op : Op) (h : Inv s) (hv : valid s op = true) : Inv (step repaired s op) := by
   cases op with
   | newEv l sc => exact newEv_inv s l sc h
-  | init e sigs o => exact initEv_inv s e sigs o h hv
+  | init e sigs o => exact initEv_inv s e sigs o h (by simpa [valid] using hv)
   | enable e => exact enable_inv s e h
   | disable e => exact disable_inv s e h
   | destroy e => exact destroy_inv s e h
